@@ -463,7 +463,12 @@ def chunks(tier, seed):
     depth_bound = 3 if tier == "quick" else 4
     for si in range(len(_seeds())):
         h = Harness(si)
-        root = h.build((("seed", si),))
+        try:
+            root = h.build((("seed", si),))
+        except Violation:
+            # the seed tree itself violates an invariant: let one chunk rediscover and report it
+            out.append(dict(seed=si, first=("obs", "is_open"), depth=1))
+            continue
         for op in h.enabled(root):
             out.append(dict(seed=si, first=op, depth=depth_bound))
     return out
